@@ -68,7 +68,14 @@ func init() {
 			gen.EmitEmptyData = true // zero-length data events inside chunks must be passed on too
 			return &EvCase{Events: gen.Document(t, c15Opts(ctx))}
 		},
-		Check: func(ci interface{}, ctx *Ctx) error {
+		Fixed: func(ctx *Ctx, report func(c interface{}, err error)) { sweepEventCases(ctx, report, c15Check) },
+		Check: c15Check,
+	})
+}
+
+func c15Check(ci interface{}, ctx *Ctx) error {
+	{
+		{
 			c := ci.(*EvCase)
 			in := ev.Clone(c.Events)
 			snapshot := ev.Clone(c.Events)
@@ -121,6 +128,6 @@ func init() {
 				}
 			}
 			return nil
-		},
-	})
+		}
+	}
 }
